@@ -48,6 +48,51 @@ pub struct Scn {
     pub other_doc: Option<Doc>,
 }
 
+/// configurations differing from `c` in exactly one field (a cache keyed on a subset of
+/// the configuration collides with one of them)
+fn single_field_perturbations(c: &Cfg) -> Vec<Cfg> {
+    let mut v = Vec::new();
+    let mut p = c.clone();
+    p.font_size += 3.0;
+    v.push(p);
+    let mut p = c.clone();
+    p.font_family = if c.font_family == "serif" { "monospace".into() } else { "serif".into() };
+    v.push(p);
+    let mut p = c.clone();
+    p.theme = if c.theme == "dark" { "bold".into() } else { "dark".into() };
+    v.push(p);
+    let mut p = c.clone();
+    p.seed = c.seed.wrapping_add(1);
+    v.push(p);
+    let mut p = c.clone();
+    p.border = c.border.wrapping_add(2);
+    v.push(p);
+    let mut p = c.clone();
+    p.scale = c.scale * 2.0;
+    v.push(p);
+    let mut p = c.clone();
+    p.background = if c.background == "white" { "#123".into() } else { "white".into() };
+    v.push(p);
+    let mut p = c.clone();
+    p.add_metadata = !c.add_metadata;
+    v.push(p);
+    let mut p = c.clone();
+    p.debug = !c.debug;
+    v.push(p);
+    let mut p = c.clone();
+    p.add_auto_styles = !c.add_auto_styles;
+    v.push(p);
+    let mut p = c.clone();
+    p.svg_style = if c.svg_style.is_some() { None } else { Some("margin: 1px".into()) };
+    v.push(p);
+    let mut p = c.clone();
+    p.loop_limit = c.loop_limit / 2 + 1;
+    p.var_limit = c.var_limit / 2 + 1;
+    p.depth_limit = c.depth_limit / 2 + 1;
+    v.push(p);
+    v
+}
+
 fn perturbed(c: &Cfg) -> Cfg {
     let mut p = c.clone();
     p.font_size += 3.0;
@@ -267,6 +312,9 @@ impl Engine for C06 {
                         // history: other transforms on this thread first (results ignored)
                         if interfere & 1 != 0 {
                             let _ = fe_stream_plain(&doc, &perturbed(&cfg));
+                            for p in single_field_perturbations(&cfg) {
+                                let _ = fe_stream_plain(&doc, &p);
+                            }
                         }
                         if interfere & 2 != 0 {
                             if let Some(o) = &other {
